@@ -359,10 +359,14 @@ Plan gen_conc(uint64_t seed, const string &prop) {
   p.cfg.cmp = 0;
   if (r.chance(0.85)) p.cfg.wbs = 65536;
   p.params["prop"] = prop;
-  bool small = prop == "C08" ? r.chance(0.8) : prop == "C04" ? r.chance(0.4) : r.chance(0.15);
+  // "starved reader" flavour (C08): long histories under the priority scheduler, a memtable about to switch, extra
+  // flushes and compactions - a caller parked in front of a lock while others overwrite, flush and compact behind it
+  bool starve = prop == "C08" && r.chance(0.25);
+  bool small = starve ? false : prop == "C08" ? r.chance(0.8) : prop == "C04" ? r.chance(0.4) : r.chance(0.15);
   int nthreads = (int)r.range(2, small ? 5 : 8);
   p.sc = random_sched(r, true);
   if (prop == "C09" && r.chance(0.4)) p.sc.policy = r.chance(0.6) ? sim::P_BG_STARVE : sim::P_BG_EAGER;
+  if (starve) { p.sc.policy = sim::P_PCT; p.sc.pct_depth = (int)r.range(2, 3); if (nthreads < 4) nthreads = (int)r.range(4, 6); }
   p.seti("threads", nthreads);
   p.seti("lin", small ? 1 : 0);
   int per = small ? (int)r.range(3, 60 / nthreads > 12 ? 12 : 60 / nthreads) : (int)r.range(15, prop == "C10" ? 120 : 70);
@@ -371,7 +375,7 @@ Plan gen_conc(uint64_t seed, const string &prop) {
   if (prop == "C04") { ngroups = 2; gsize = 3; }
   p.seti("nsingle", nsingle); p.seti("ngroups", ngroups); p.seti("gsize", gsize);
   // prefill so that the memtable switch and a background flush happen inside the history
-  long brink = r.chance(0.6) ? (long)r.range(40000, 70000) : 0;
+  long brink = starve ? (long)r.range(55000, 66000) : r.chance(0.6) ? (long)r.range(40000, 70000) : 0;
   p.seti("prefill", brink);
   p.seti("l0_files", r.chance(prop == "C09" ? 0.5 : 0.15) ? (int)r.range(3, prop == "C09" ? 15 : 11) : 0);
   uint64_t tag = 1000;
@@ -385,6 +389,7 @@ Plan gen_conc(uint64_t seed, const string &prop) {
   if (prop == "C07") { w[O_ITER_NEW] += 10; w[O_PUT] += 6; w[O_DEL] += 3; w[O_WRITE] += 3; }
   if (prop == "C06") { w[O_SNAP] += 10; w[O_PUT] += 6; w[O_DEL] += 3; w[O_WRITE] += 3; }
   if (prop == "C09") { w[O_PUT] += 8; w[O_FLUSH] += 1; w[O_COMPACT_RANGE] += 1; w[O_BACKUP] += 0.5; }
+  if (starve) { w[O_GET] += 10; w[O_PUT] += 6; w[O_FLUSH] += 2; w[O_COMPACT_RANGE] += 3; }
   double tot = 0; for (double x : w) tot += x;
   bool bigvals = !small && r.chance(0.5);
   bool hugevals = !small && !g_light && r.chance(0.12); // batches beyond the group-commit size limits (leader + 128 KiB / 1 MiB)
